@@ -1140,7 +1140,20 @@ def run_chain(scenario, count=None, on_event=None):
             tr.log_start = len(sim.log)
             tr.keys_before = len(sim.keys_issued)
             sim.ev_index = -1
-            _drive(ws, scn_k, sim, tr, on_event)
+            # the previous attempt may have been abandoned with its generator kept alive ("hold"); this attempt
+            # says when that generator is finally dropped: "release_held" = "after_connect" (right after this
+            # attempt's connect() call - a variable holding the generator is reused) or an event index of this
+            # attempt.  Without it the generator stays alive until the caller clears Trace.held.
+            release = None
+            if att.get("release_held") is not None and traces and traces[-1].held is not None:
+                prev = traces[-1]
+
+                def drop(prev=prev):
+                    sim.actor = "app"
+                    prev.held = None
+                    gc_collect_young()
+                release = (att["release_held"], drop)
+            _drive(ws, scn_k, sim, tr, on_event, release)
             tr.log_end = len(sim.log)
             traces.append(tr)
     finally:
@@ -1148,7 +1161,11 @@ def run_chain(scenario, count=None, on_event=None):
     return traces
 
 
-def _drive(ws, scenario, sim, tr, on_event):
+def gc_collect_young():
+    pass    # reference counting finalises the dropped generator at once; kept as a hook
+
+
+def _drive(ws, scenario, sim, tr, on_event, release=None):
     copts = dict(scenario.get("connect_opts", {}))
     rules = scenario.get("reactions", [])
     fired = [False] * len(rules)
@@ -1156,6 +1173,9 @@ def _drive(ws, scenario, sim, tr, on_event):
     msg_ord = -1
     use_with = any(a[0] == "with_exit" for r in rules for a in r["do"])
     gen = ws.connect(**copts)
+    if release is not None and release[0] == "after_connect":
+        release[1]()
+        release = None
     abandon = None
     try:
         while True:
@@ -1190,6 +1210,9 @@ def _drive(ws, scenario, sim, tr, on_event):
                 this_msg = msg_ord
             tr.events.append(snap)
             tr.objs.append(ev)
+            if release is not None and release[0] == idx:
+                release[1]()
+                release = None
             if on_event is not None:
                 on_event(ws, ev, tr)
             for ri, rule in enumerate(rules):
